@@ -134,3 +134,32 @@ theorem run_log_all {α σ : Type} {P : Req → Prop} (step : σ → Req → Res
 
 end Prog
 end Mc
+
+namespace Mc
+namespace Prog
+
+/-- on every branch, no `P`-request is issued after a `Q`-request -/
+inductive NoPAfterQ {α : Type} (P Q : Req → Prop) : Prog α → Prop where
+  | ret (a : α) : NoPAfterQ P Q (.ret a)
+  | call (r : Req) (k : Resp → Prog α) :
+      (Q r → ∀ x, NoQ P (k x)) → (∀ x, NoPAfterQ P Q (k x)) → NoPAfterQ P Q (.call r k)
+
+/-- after a (request, response) pair satisfying `G`, no `Q`-request is issued any more -/
+inductive HaltsAfter {α : Type} (G : Req → Resp → Prop) (Q : Req → Prop) : Prog α → Prop where
+  | ret (a : α) : HaltsAfter G Q (.ret a)
+  | call (r : Req) (k : Resp → Prog α) :
+      (∀ x, G r x → NoQ Q (k x)) → (∀ x, HaltsAfter G Q (k x)) → HaltsAfter G Q (.call r k)
+
+/-- every result (leaf) of the program satisfies `R`, whatever the responses -/
+inductive AllRets {α : Type} (R : α → Prop) : Prog α → Prop where
+  | ret (a : α) : R a → AllRets R (.ret a)
+  | call (r : Req) (k : Resp → Prog α) : (∀ x, AllRets R (k x)) → AllRets R (.call r k)
+
+/-- number of requests satisfying `Q` on the longest branch is at most `n` -/
+inductive AtMost {α : Type} (Q : Req → Prop) : Nat → Prog α → Prop where
+  | ret (n : Nat) (a : α) : AtMost Q n (.ret a)
+  | callQ (n : Nat) (r : Req) (k : Resp → Prog α) : (∀ x, AtMost Q n (k x)) → AtMost Q (n + 1) (.call r k)
+  | callN (n : Nat) (r : Req) (k : Resp → Prog α) : ¬ Q r → (∀ x, AtMost Q n (k x)) → AtMost Q n (.call r k)
+
+end Prog
+end Mc
